@@ -4,5 +4,5 @@ set -e
 cd "$(dirname "$0")"
 timeout 600 coqc -Q ../coq/theories GG Extract.v > extract.log 2>&1 || { cat extract.log; exit 1; }
 rm -f model.mli
-ocamlfind ocamlopt -O2 -w -a -package str,zarith -linkpkg model.ml sexp.ml conv.ml c19.ml c20.ml exec.ml coerce.ml text.ml main.ml -o modelrun 2>/dev/null \
-  || ocamlfind ocamlopt -w -a -package str,zarith -linkpkg model.ml sexp.ml conv.ml c19.ml c20.ml exec.ml coerce.ml text.ml main.ml -o modelrun
+ocamlfind ocamlopt -O2 -w -a -package str,zarith -linkpkg model.ml sexp.ml conv.ml c19.ml c20.ml exec.ml coerce.ml text.ml schema.ml main.ml -o modelrun 2>/dev/null \
+  || ocamlfind ocamlopt -w -a -package str,zarith -linkpkg model.ml sexp.ml conv.ml c19.ml c20.ml exec.ml coerce.ml text.ml schema.ml main.ml -o modelrun
